@@ -95,7 +95,7 @@ func init() {
 			r.drive("C10", cases, 0)
 		}})
 	register(&Property{ID: "C17", Level: "exploration",
-		Rule: "cases = curated descriptors with custom-type fields (k1: repeated customtype with a suffixes entry and a custom_types entry; k4: nullable / by-value / repeated customtype, custom_types entry with a path-like type name and default suffix) + seeded random descriptors that contain custom fields; the harness's hooks GenSchema<S> / CopyFrom<S> / CopyTo<S> are generic recording shims named after the suffix the model predicts (a different suffix does not compile); oracles: one GenSchema<S> call per custom field with the model's description and flags, schema entry = hook result; CopyTo: a call carrying the field value, the attribute type of the target and the current attribute value (absent on the first call, the earlier value on the second), stored value = returned value; CopyFrom: exactly one call with a pointer to the very field and the very attribute value, field not written by generated code, missing attribute still reported; distinct = distinct (direction, custom field, prior state) tuples",
+		Rule: "cases = curated descriptors with custom-type fields (k1: repeated customtype with a suffixes entry and a custom_types entry; k4: nullable / by-value / repeated customtype, custom_types entry with a path-like type name and default suffix; k9, k13, k15: message-typed and schema_types-addressed custom fields; k1blank: an empty configured suffix and temporal fields listed in custom_types; option variants of k4) + seeded random descriptors that contain custom fields; the harness's hooks GenSchema<S> / CopyFrom<S> / CopyTo<S> are generic recording shims named after the suffix the model predicts (a different suffix does not compile); oracles: one GenSchema<S> call per custom field with the model's description and flags, schema entry = hook result; a second GenSchema<T> call delegates again; CopyTo: a call carrying the field value, the attribute type of the target and the current attribute value (absent on the first call, the earlier value on the second; every 16th call an unknown / a null value put there by the monitor, every 32nd call a target flagged unknown / null), stored value = returned value (also a nil one); CopyFrom: exactly one call with a pointer to the very field and the very attribute value, field not written by generated code, missing attribute still reported; distinct = distinct (direction, custom field, prior state) tuples",
 		Check: func(r *Run) {
 			cases := curatedCases("k1", "k4", "k9", "k13", "k15")
 			{
